@@ -12,7 +12,7 @@
 using namespace SimTK;
 using std::string;
 
-static string num(double x) { char b[40]; snprintf(b, sizeof b, "%.17g", x); return b; }
+static string num(double x) { if (x != x) return "NaN"; if (x > 1e308) return "Infinity"; if (x < -1e308) return "-Infinity"; char b[40]; snprintf(b, sizeof b, "%.17g", x); return b; }
 static string cx(double x) { return "[" + num(x) + ",0]"; }
 static string cx(float x) { return "[" + num(x) + ",0]"; }
 static string cx(const std::complex<double>& x) { return "[" + num(x.real()) + "," + num(x.imag()) + "]"; }
@@ -27,7 +27,8 @@ template <class E, class RealT> static void runFor(std::ostringstream& js, const
     Vector_<E> b0(m); for (int i = 0; i < m; ++i) b0[i] = B(i, 0);
     auto part = [&](const char* name, std::function<string()> f) {
         js << ",\"" << tag << "/" << name << "\":";
-        try { js << "{" << f() << "}"; } catch (const std::exception& e) { js << "{\"exc\":" << mj::quote(string(e.what()).substr(0, 200)) << "}"; }
+        string body; try { body = "{" + f() + "}"; } catch (const std::exception& e) { body = "{\"exc\":" + mj::quote(string(e.what()).substr(0, 300)) + "}"; }
+        js << body;
     };
     if (m == n) part("LU", [&] { std::ostringstream o; FactorLU lu(A); o << "\"singular\":" << (lu.isSingular() ? 1 : 0);
         if (!lu.isSingular()) { Vector_<E> x; lu.solve(b0, x); Matrix_<E> X; lu.solve(B, X); Matrix_<E> inv; lu.inverse(inv); o << ",\"x\":" << jv(x) << ",\"X\":" << jm(X) << ",\"inv\":" << jm(inv);
@@ -40,7 +41,7 @@ template <class E, class RealT> static void runFor(std::ostringstream& js, const
         return o.str(); });
     part("SVD", [&] { std::ostringstream o; FactorSVD svd(A); Vector_<RealT> sv; svd.getSingularValues(sv); o << "\"rank\":" << svd.getRank() << ",\"sv\":" << jv(sv);
         Vector_<E> x; svd.solve(b0, x); Matrix_<E> X; svd.solve(B, X); o << ",\"x\":" << jv(x) << ",\"X\":" << jm(X);
-        Matrix_<E> inv; svd.inverse(inv); o << ",\"inv\":" << jm(inv);
+        if (m == n) { Matrix_<E> inv; svd.inverse(inv); o << ",\"inv\":" << jm(inv); }      // (inverse() is for square matrices)
         Vector_<RealT> sv2; Matrix_<E> Um, Vt; svd.getSingularValuesAndVectors(sv2, Um, Vt); o << ",\"sv2\":" << jv(sv2) << ",\"U\":" << jm(Um) << ",\"Vt\":" << jm(Vt);
         return o.str(); });
     if (m == n && c["kind"].str() != "lin") part("Eigen", [&] { std::ostringstream o; Eigen es(A); Vector_<std::complex<RealT> > vals; Matrix_<std::complex<RealT> > vecs; es.getAllEigenValuesAndVectors(vals, vecs);
